@@ -45,6 +45,12 @@ Violations(e) ==
     (IF e.err # "" THEN {"WriteAccepted"} ELSE {})
     \cup (IF e.n # e.size THEN {"Delivery"} ELSE {})
     \cup (IF e.off # -1 THEN {"NoLossNoDupNoReorder"} ELSE {})
+  ELSE IF e.op = "Burst" THEN
+    \* one end writes a burst and closes at once; the slow reader still gets all of it, then end of stream
+    (IF e.size = 0 THEN {"WriteAccepted"} ELSE {})
+    \cup (IF e.n # e.size THEN {"Delivery"} ELSE {})
+    \cup (IF e.off # -1 THEN {"NoLossNoDupNoReorder"} ELSE {})
+    \cup (IF e.err \notin {"eof", "closed"} THEN {"EOSAfterClose"} ELSE {})
   ELSE {}
 
 TraceNext ==
@@ -56,11 +62,11 @@ TraceNext ==
                ELSE [ok |-> TRUE, q |-> <<>>, cur |-> -1]
      IN /\ wrote' = IF reset THEN [x \in Dirs |-> 0]
                     ELSE IF e.op = "W" /\ e.n > 0 THEN [wrote EXCEPT ![e.dir] = @ + e.n]
-                    ELSE IF e.op = "Bulk" THEN [wrote EXCEPT ![e.dir] = @ + e.size] ELSE wrote
+                    ELSE IF e.op \in {"Bulk", "Burst"} THEN [wrote EXCEPT ![e.dir] = @ + e.size] ELSE wrote
         /\ got' = IF reset THEN [x \in Dirs |-> 0]
                   ELSE IF e.op = "R" /\ e.n > 0 THEN [got EXCEPT ![e.dir] = @ + e.n]
-                  ELSE IF e.op = "Bulk" THEN [got EXCEPT ![e.dir] = @ + e.n] ELSE got
-        /\ closedBy' = IF reset THEN "" ELSE IF e.op = "Close" THEN e.end ELSE closedBy
+                  ELSE IF e.op \in {"Bulk", "Burst"} THEN [got EXCEPT ![e.dir] = @ + e.n] ELSE got
+        /\ closedBy' = IF reset THEN "" ELSE IF e.op \in {"Close", "Burst"} THEN e.end ELSE closedBy
         /\ mq' = IF reset THEN [x \in Dirs |-> <<>>]
                  ELSE IF e.op = "W" /\ e.err = "" THEN [mq EXCEPT ![e.dir] = Append(@, e.size)]
                  ELSE IF e.op = "R" /\ e.n > 0 /\ rs.ok THEN [mq EXCEPT ![e.dir] = rs.q]
